@@ -831,3 +831,20 @@ class _:
     modifies = ['self.status', 'self.outgoing_messages', 'self.incoming_messages', 'self.pending_callbacks', 'self.pending_retry',
                 'self.pending_acks', 'self.seq_message', 'self.stats.sent'] + ['field:PendingMessage.' + f for f in
                 ('seq', 'type', 'payload', 'callback', 'retry', 'assembled_time')]
+
+
+@contract('connection.ConnectionBase._encode_packet', props=['C03'])
+class _:
+    """the client-side send site (UdpClient.update) and every test harness go through here: the packet is encoded with THIS
+    connection's session key (None before key agreement), the result is returned unchanged, an encoding error propagates"""
+    def setup(E):
+        self = make_conn(E, key='some')
+        pkt = E.plain_obj(tag='pkt', to_bytes=E.opaque('pkt.to_bytes', effect=lambda ip, fn, a, k: to_bytes_effect(ip, 0, a), may_raise=True))
+        return dict(self=self, pkt=pkt)
+    ensures = {
+        'encoded-with-the-connections-own-key': lambda events, self, result, ghost: (
+            len([e for e in events if e[0] == 'pkt.to_bytes']) == 1 and [e for e in events if e[0] == 'pkt.to_bytes'][0][1][0] is self.session_key_bytes
+            and result is ghost.wire[0][0]),
+    }
+    may_raise = ['Exception']
+    modifies = ['self.stats.pkts_sent', 'self.stats.bytes_sent']
